@@ -191,3 +191,38 @@ def ob_compose(di: int, ci: int, ki: int, order: bool, tsi: int) -> bool:
 
 def why_compose(di, ci, ki, order, tsi):
     return compose_check(DAYEXPR[di], CLOCKS[ci], CONN[ki], bool(order), TSS[tsi])[1]
+
+
+# ------------------------------------------------------------------ C03: an omitted reference time means the current time
+
+TEXTS03 = ["now", "tomorrow", "today", "next friday", "end of month", "8pm"]
+
+
+class _FakeDT(datetime):
+    _now = None
+
+    @classmethod
+    def now(cls, tz=None):
+        return cls._now
+
+
+def ob_ts_default(ti: int, y: int, mo: int, d: int, h: int, mi: int) -> bool:
+    """
+    pre: 0 <= ti < 6 and 0 <= y <= 3 and 0 <= mo <= 3 and 0 <= d <= 2 and 0 <= h <= 2 and 0 <= mi <= 2
+    post: _
+    """
+    with NoTracing():
+        yy = [2016, 2023, 2024, 2043][_pick(y, 4)]
+        mm = [1, 2, 6, 12][_pick(mo, 4)]
+        dd = [1, 15, 28][_pick(d, 3)]
+        ts = datetime(yy, mm, dd, [0, 12, 23][_pick(h, 3)], [0, 30, 59][_pick(mi, 3)], 17)
+        text = TEXTS03[_pick(ti, 6)]
+        _FakeDT._now = ts
+        old = C.datetime
+        C.datetime = _FakeDT
+        try:
+            a = C.ctparse(text, timeout=0)
+        finally:
+            C.datetime = old
+        b = C.ctparse(text, ts=ts, timeout=0)
+        return str(a.resolution) == str(b.resolution) and a.production == b.production
